@@ -270,27 +270,45 @@ theorem Registry.Inv.delete {r : Registry} (h : r.Inv) (id : Nat) : (r.delete id
     exact h.connsNodup.sublist this
 
 theorem Registry.Inv.modify {r : Registry} (h : r.Inv) (id : Nat) (f : Client → Client)
-    (hf : ∀ d, (f d).id = d.id ∧ (f d).conn = d.conn) : (r.modify id f).Inv := by
-  have hid : ∀ d : Client, (if d.id = id then f d else d).id = d.id := by
-    intro d; split <;> simp [hf d]
-  have hcn : ∀ d : Client, (if d.id = id then f d else d).conn = d.conn := by
-    intro d; split <;> simp [hf d]
+    (hf : ∀ d ∈ r.clients, d.id = id → (f d).id = d.id ∧ (f d).conn = d.conn) : (r.modify id f).Inv := by
+  have hid : ∀ d ∈ r.clients, (if d.id = id then f d else d).id = d.id := by
+    intro d hd; split
+    · exact (hf d hd (by assumption)).1
+    · rfl
+  have hcn : ∀ d ∈ r.clients, (if d.id = id then f d else d).conn = d.conn := by
+    intro d hd; split
+    · exact (hf d hd (by assumption)).2
+    · rfl
   refine ⟨?_, ?_, ?_, ?_⟩
   · show SortedIds (r.clients.map _)
     unfold SortedIds
     rw [List.pairwise_map]
-    exact h.sorted.imp (fun {a b} hab => by rw [hid a, hid b]; exact hab)
+    exact h.sorted.imp_of_mem (fun {a b} ha hb hab => by rw [hid a ha, hid b hb]; exact hab)
   · intro c hc
     obtain ⟨d, hd, rfl⟩ := List.mem_map.mp hc
-    rw [hid d]; exact h.range d hd
+    rw [hid d hd]; exact h.range d hd
   · intro c hc
     obtain ⟨d, hd, rfl⟩ := List.mem_map.mp hc
-    rw [hcn d]; exact h.conns d hd
+    rw [hcn d hd]; exact h.conns d hd
   · show ((r.clients.map (fun d => if d.id = id then f d else d)).map (fun c : Client => c.conn)).Nodup
     rw [List.map_map]
-    have : ((fun c : Client => c.conn) ∘ fun d => if d.id = id then f d else d) = (·.conn) := by
-      funext d; exact hcn d
+    have : r.clients.map ((fun c : Client => c.conn) ∘ fun d => if d.id = id then f d else d) = r.clients.map (·.conn) :=
+      List.map_congr_left (fun d hd => hcn d hd)
     rw [this]; exact h.connsNodup
+
+/-- Replacing the record of the connected client `c` by `c'`: the table holds `c'` and everybody else. -/
+theorem Registry.mem_modify {r : Registry} {c c' : Client} (hc : c ∈ r.clients) {x : Client} :
+    x ∈ (r.modify c.id (fun _ => c')).clients ↔ x = c' ∨ (x ∈ r.clients ∧ x.id ≠ c.id) := by
+  unfold Registry.modify
+  simp only [List.mem_map]
+  constructor
+  · rintro ⟨d, hd, rfl⟩
+    split
+    · exact Or.inl rfl
+    · rename_i hne; exact Or.inr ⟨hd, hne⟩
+  · rintro (rfl | ⟨hx, hne⟩)
+    · exact ⟨c, hc, by simp⟩
+    · exact ⟨x, hx, by simp [hne]⟩
 
 /-- What a successful `Add` guarantees. -/
 theorem Registry.add_spec {r r' : Registry} {mk c : Client} (h : r.Inv) (ha : r.add mk = some (r', c)) :
@@ -373,5 +391,32 @@ theorem Registry.add_succeeds {r : Registry} (mk : Client) (hcap : r.clients.len
   unfold Registry.add
   rw [hp]
   exact ⟨_, _, rfl⟩
+
+-- ------------------------------------------------------------------ histories of the table alone
+
+/-- A history of the client table alone: connections come and go. -/
+inductive RegOp where
+  | add (mk : Client)
+  | delete (id : Nat)
+
+def regStep (r : Registry) : RegOp → Registry
+  | .add mk => match r.add mk with | some (r', _) => r' | none => r
+  | .delete id => r.delete id
+
+theorem regStep_inv (r : Registry) (h : r.Inv) (op : RegOp) : (regStep r op).Inv := by
+  cases op with
+  | add mk =>
+    simp only [regStep]
+    split
+    · rename_i r' c ha; exact (Registry.add_spec h ha).1
+    · exact h
+  | delete id => exact h.delete id
+
+theorem regOps_inv (ops : List RegOp) : (ops.foldl regStep Registry.init).Inv := by
+  have : ∀ (r : Registry), r.Inv → (ops.foldl regStep r).Inv := by
+    induction ops with
+    | nil => intro r h; exact h
+    | cons op ops ih => intro r h; exact ih _ (regStep_inv r h op)
+  exact this _ Registry.Inv.init
 
 end Mobius
